@@ -37,11 +37,20 @@ def gen_op(r):
         return ['start_with', [enc(x) for x in r.choice([[], [50], [50, 51]])]]
     if k == 'batch':
         return ['batch', r.choice([1, 2, 3, 4])]
-    return ['sort', r.choice([None, ['neg'], ['mod', 3]]), int(r.random() < 0.3)]
+    return ['sort', r.choice([None, ['neg'], ['mod', 3], ['mod', 3], ['floordiv', 2], ['nth', 0], ['comp', ['nth', 1], ['neg']]]),
+            int(r.random() < 0.45)]
 
 
 def gen_seq(r, op):
     n = r.choice([0, 1, 2, 3, 4, 5, 6, 8, 9, 12, 13])
+    if op[0] == 'sort' and op[1] and op[1][0] in ('nth', 'comp'):
+        # items (sort key, other sort key, tag): few distinct sort keys, every item distinguishable by its tag, so the
+        # order among items of equal sort key is visible
+        if r.random() < 0.15:
+            n = r.choice([40, 70, 130])
+        return [enc((r.choice([0, 1, 1, 2, 5]), r.choice([-1, 0, 0, 3]), i)) for i in range(n)]
+    if op[0] == 'sort' and r.random() < 0.15:
+        n = r.choice([40, 70, 130])         # beyond the run lengths below which sorted() is a plain insertion sort
     with_none = op[0] in ('first', 'last', 'take', 'duc', 'lag', 'pad_start', 'pad_end', 'start_with', 'batch') \
         and not (op[0] == 'duc' and op[1]) and r.random() < 0.35
     xs = []
@@ -176,9 +185,16 @@ def spec(op, xs):
         n = op[1]
         return [xs[i:i + n] for i in range(0, len(xs), n)]
     if k == 'sort':
+        # a stably ordered permutation, built without sorted(): each item goes before the first item it must precede
         from harness.pyval import py_fn
         f = py_fn(op[1]) if op[1] else (lambda x: x)
-        return sorted(xs, key=f, reverse=bool(op[2]))
+        out = []
+        for x in reversed(xs):
+            j = 0
+            while j < len(out) and not ((f(out[j]) <= f(x)) if op[2] else (f(x) <= f(out[j]))):
+                j += 1
+            out.insert(j, x)
+        return out
     raise ValueError(op)
 
 
@@ -239,7 +255,13 @@ def coq_preamble():
 
 def coq_term(case, obs):
     if case['op'][0] == 'sort':
-        return 'MCSkip'
+        from harness.pyval import coq_fn, coq_val
+        op = case['op']
+        cl = lambda l: '[' + '; '.join(l) + ']'
+        runs = ['(%s, %s)' % (cl([coq_val(x) for x in s]), cl([coq_val(x) for x in p['items']]))
+                for s, p in zip(case['seqs'], obs['plain'])]
+        return 'MCSort %s %s %s' % ('(Some %s)' % coq_fn(op[1]) if op[1] else 'None', 'true' if op[2] else 'false',
+                                    cl(runs))
     if 'raised' in obs:
         return 'MCRaised'
     return muxlib.coq_muxcase([case['op']], obs['trace'], obs)
